@@ -225,6 +225,21 @@ func validateBarcodes(c Case, seq string, got []string, funcs []func(string) boo
 		if err := validateBarcodes(c, seq, second, funcs, false); err != nil {
 			return fmt.Errorf("the same call a second time, after the caller had overwritten the list the first returned: %v", err)
 		}
+		// kept by the caller while other lists are made (vk.Hold): letter for letter what it was when it was returned
+		if len(second) <= 5000 {
+			was := make([]string, len(second))
+			for i, b := range second {
+				was[i] = strings.Clone(b)
+			}
+			vk.Hold(fmt.Sprintf("the barcode list of length %d, order %d", c.Length, c.Order), func() error {
+				for i := range was {
+					if second[i] != was[i] {
+						return vk.Errf("barcode %d was %q and is now %q", i, was[i], second[i])
+					}
+				}
+				return nil
+			})
+		}
 	}
 	return nil
 }
